@@ -60,6 +60,7 @@ type RollScn struct {
 	FaultDir []string   `json:"dir_faults,omitempty"` // C14: readdir | info | remove failures
 	Static   string     `json:"static,omitempty"`     // C19b: file-closed | file-unstarted | console-fails
 	ViaLogger bool      `json:"via_logger,omitempty"` // C14: the sibling pair is built by a RollingFileLogger (separate=true)
+	ViaAppend bool      `json:"via_append,omitempty"` // C13: every other write is an event handed to Append, stamped by the application's clock (TimeNow hook), not the wall clock
 	Twin     bool       `json:"twin,omitempty"`       // C13: a second live appender object on the same directory and name (odd writers use it)
 	Script   []string   `json:"script,omitempty"`     // C19 grid: sequential script of w | clk | out:<kind> | restore
 }
@@ -197,7 +198,20 @@ func spawnWritersPart(x *Exec, s *RollScn, a *log.RollingFileAppender, writes *[
 				rw := &rollWrite{ID: fmt.Sprintf("w%d-%d", w, i), Payload: rollPayload(w, i, size), Start: verifsim.Now()}
 				rw.StartStep, _ = stepTask()
 				*writes = append(*writes, rw)
-				pv, _ := call(func() { a.Write([]byte(rw.Payload)) })
+				var pv any
+				if s.ViaAppend && i%2 == 1 {
+					// an event whose timestamp comes from the application's own clock (years away from
+					// the wall clock, or zero): when to rotate is a matter of the wall clock alone
+					rw.Payload = fmt.Sprintf("APPENDED-w%d-%d-%s", w, i, strings.Repeat("z", size%300))
+					e := log.GetEvent()
+					e.Level, e.Tag, e.File, e.Line = log.InfoLevel, "_app_def", "roll.go", i
+					e.Time = []time.Time{evTime(evKey{task: w, seq: i}), {}, verifsim.Now().Add(-36 * time.Hour)}[(w+i/2)%3]
+					e.Fields = []log.Field{log.String("p", rw.Payload)}
+					pv, _ = call(func() { a.Append(e) })
+					log.PutEvent(e)
+				} else {
+					pv, _ = call(func() { a.Write([]byte(rw.Payload)) })
+				}
 				rw.End = verifsim.Now()
 				if pv != nil {
 					rw.Panic = pv
@@ -255,6 +269,7 @@ func (c13) Gen(rt *rapid.T, thorough bool) any {
 	s.Pre = rapid.IntRange(0, 3).Draw(rt, "pre") == 0
 	s.Restarts = rapid.SampledFrom([]int{0, 0, 0, 1, 2}).Draw(rt, "restarts")
 	s.Twin = len(s.Writers) > 1 && rapid.IntRange(0, 3).Draw(rt, "twin") == 0
+	s.ViaAppend = rapid.IntRange(0, 2).Draw(rt, "via_append") == 0
 	if rapid.IntRange(0, 7).Draw(rt, "huge") == 0 {
 		// one very long line somewhere: "whole" has no size limit
 		w := rapid.IntRange(0, len(s.Writers)-1).Draw(rt, "huge_w")
@@ -467,7 +482,7 @@ func init() { register(c19{}) }
 func (c19) ID() string    { return "C19" }
 func (c19) Level() string { return "fault_enumeration" }
 func (c19) Rule() string {
-	return "case = C13-style workload (1-4 writers, clock decisions around 3-6 boundaries) plus an ordered list of fault actions the scheduler places anywhere between the writers' steps and the clock decisions: directory renamed away / restored (open fails with ENOENT, held handles keep working), EMFILE / ENOSPC / EACCES on open; or a static failing target (file appender never started or already closed, console stream failing every write) driven through a synchronous logger. Fault placements are enumerated by the seeded scheduler tape (every position relative to boundaries and writes is reachable; sampled, not exhaustive). Non-trivial = a file creation actually failed at a boundary (fired > 0) while at least one write followed, or a static failing target received at least one call; distinct = distinct context-switch trace hashes (fault and clock actions are part of the trace). Since round 3: one third of the 10 min / 1 h cases run with MaxAge = 1 h and clock moves of several intervals (then the clock only moves between operations); a returned write that is in no file is looked up in the removal log of the simulated disk and may only have gone with a file last modified at least MaxAge before; in script mode (the enumerated grid, 854 placements incl. two appenders sharing the directory and hourly rotation with 1 h retention) every write is compared with the exact file a sequential per-appender model predicts."
+	return "case = C13-style workload (1-4 writers, clock decisions around 3-6 boundaries) plus an ordered list of fault actions the scheduler places anywhere between the writers' steps and the clock decisions: directory renamed away / restored (open fails with ENOENT, held handles keep working), EMFILE / ENOSPC / EACCES on open; or a static failing target (file appender never started or already closed, console stream failing every write) driven through a synchronous logger. Fault placements are enumerated by the seeded scheduler tape (every position relative to boundaries and writes is reachable; sampled, not exhaustive). Non-trivial = a file creation actually failed at a boundary (fired > 0) while at least one write followed, or a static failing target received at least one call; distinct = distinct context-switch trace hashes (fault and clock actions are part of the trace). Since round 3: one third of the 10 min / 1 h cases run with MaxAge = 1 h and clock moves of several intervals (then the clock only moves between operations); a returned write that is in no file is looked up in the removal log of the simulated disk and may only have gone with a file last modified at least MaxAge before; in script mode (the enumerated grid, 864 placements incl. two appenders sharing the directory and hourly rotation with 1 h retention) every write is compared with the exact file a sequential per-appender model predicts."
 }
 func (c19) Decode(raw json.RawMessage) (any, error) {
 	var s RollScn
@@ -1189,6 +1204,17 @@ func (c19) Grid() []any {
 				}
 				f(script)
 			}
+		}
+	}
+	// outages that last many boundaries (9-13): however often creation failed, the next boundary tries again
+	for _, kind := range []string{"rename", "emfile"} {
+		for n := 9; n <= 13; n++ {
+			script := []string{"w", "out:" + kind}
+			for i := 0; i < n; i++ {
+				script = append(script, "clk", "w")
+			}
+			script = append(script, "restore", "clk", "w", "clk", "w")
+			out = append(out, &RollScn{Interval: "1s", MaxAge: 100000, Writers: [][]int{{10}}, Script: script, Knobs: SimKnobs{Chunks: 1, OffsetMs: int64(len(out)%3) * 499}})
 		}
 	}
 	for _, kind := range []string{"rename", "emfile"} {
